@@ -26,7 +26,10 @@ fn ns_of(t: &PlainTime) -> i128 {
 
 fn check_time(ns: i128, unit: (Unit, i128, u32), inc: u32, mode: Mode, fails: &mut Vec<Failure>) {
     let t = time_of(ns);
-    let expected = oracle::round(ns, unit.1 * inc as i128, mode).rem_euclid(NS_DAY);
+    // RoundTime: the quantity that is rounded is the time counted from the start of the ENCLOSING unit (the whole time of
+    // day for hours), so a tie under halfEven goes to the even multiple within that unit - as ECMAScript defines it
+    let sup: i128 = match unit.0 { Unit::Nanosecond => 1_000, Unit::Microsecond => 1_000_000, Unit::Millisecond => 1_000_000_000, Unit::Second => 60_000_000_000, Unit::Minute => 3_600_000_000_000, _ => NS_DAY };
+    let expected = (ns - ns % sup + oracle::round(ns % sup, unit.1 * inc as i128, mode)).rem_euclid(NS_DAY);
     let r = catch_unwind(|| t.round(unit.0, Some(inc as f64), Some(to_mode(mode))));
     match r {
         Ok(Ok(got)) => {
